@@ -74,8 +74,9 @@ class LimitedTaskQueue:
                 released.append(itask)
                 n_active += 1
                 active.update({itask.tdef.name: 1})
-        for itask in held:
-            self.deque.appendleft(itask)
+        for itask in reversed(held):
+            # put held tasks back where they were (at the front, in order)
+            self.deque.append(itask)
         return released
 
     def remove(self, itask: 'TaskProxy') -> bool:
